@@ -107,3 +107,101 @@ def rparenExclusive (g : GT) : Bool :=
     isDefaulted g s || !((hasAction g s (g.term "DIV") || hasAction g s (g.term "DIVEQUAL")) && hasAction g s (g.term "REGEX"))
 
 end CalmVerif.Model.GrammarFacts
+
+namespace CalmVerif.Model.GrammarFacts
+open CalmVerif.Model.LR
+
+/-! ### C03: clauses of the property as facts about the regenerated grammar / tables -/
+
+def GT.prodsOf (g : GT) (n : Nat) : List (List Nat) :=
+  ((g.prods.drop 1).filter (fun p => p.1 == n)).map (·.2)
+
+/-- `L` is a left-associative binary level over the operators `ops`: its productions are exactly one pass-through
+    `L → R` and, for each operator, `L → L op R'` where neither R nor R' is L (no right recursion) -/
+def leftAssocLevel (g : GT) (level : String) (ops : List String) : Bool :=
+  let L := g.nT + g.nonterm level
+  let ps := g.prodsOf (g.nonterm level)
+  g.nonterminals.contains level &&
+  ps.all (fun rhs => match rhs with
+    | [r] => r != L && !g.terminals.isEmpty && r ≥ g.nT
+    | [l, op, r] => l == L && r != L && r ≥ g.nT && (ops.map g.term).contains op
+    | _ => false) &&
+  ops.all (fun o => g.terminals.contains o && ps.any (fun rhs => match rhs with
+    | [_, op, _] => op == g.term o
+    | _ => false)) &&
+  ps.any (fun rhs => rhs.length == 1)
+
+/-- `L` is right-recursive in its last symbol (assignment, conditional): some production ends in L itself or its
+    plain variant, none starts with L -/
+def rightAssocLevel (g : GT) (level : String) (lastOneOf : List String) : Bool :=
+  let L := g.nT + g.nonterm level
+  let ps := g.prodsOf (g.nonterm level)
+  g.nonterminals.contains level &&
+  ps.all (fun rhs => rhs.head? != some L) &&
+  ps.any (fun rhs => rhs.length > 1 && (lastOneOf.map (fun n => g.nT + g.nonterm n)).contains (rhs.getLast?.getD 0))
+
+def binaryLevels : List (String × List String) :=
+  [("multiplicative_expr", ["MULT", "DIV", "MOD"]), ("additive_expr", ["PLUS", "MINUS"]),
+   ("shift_expr", ["LSHIFT", "RSHIFT", "URSHIFT"]),
+   ("relational_expr", ["LT", "GT", "LE", "GE", "INSTANCEOF", "IN"]),
+   ("equality_expr", ["EQEQ", "NE", "STREQ", "STRNEQ"]), ("bitwise_and_expr", ["BAND"]),
+   ("bitwise_xor_expr", ["BXOR"]), ("bitwise_or_expr", ["BOR"]), ("logical_and_expr", ["AND"]),
+   ("logical_or_expr", ["OR"])]
+
+/-- all binary levels, in their plain, `_nobf` and `_noin` variants (the `_noin` relational level without `IN`) -/
+def binaryLevelsOK (g : GT) : Bool :=
+  binaryLevels.all fun (name, ops) =>
+    leftAssocLevel g name ops && leftAssocLevel g (name ++ "_nobf") ops &&
+    -- the NoIn family starts at the relational level (the tighter levels cannot contain a bare `in`)
+    (["multiplicative_expr", "additive_expr", "shift_expr"].contains name ||
+      leftAssocLevel g (name ++ "_noin") (ops.filter (· != "IN")))
+
+/-- the precedence chain: the pass-through of each level is the next tighter level (same variant) -/
+def chainOK (g : GT) (suffix : String) : Bool :=
+  let names := binaryLevels.map (·.1)
+  let pairs := (names.drop 1).zip names          -- (looser, tighter): additive → multiplicative, …
+  pairs.all fun (looser, tighter) =>
+    if suffix == "_noin" && ["multiplicative_expr", "additive_expr", "shift_expr"].contains looser then true
+    else
+      let t := if suffix == "_noin" && tighter == "shift_expr" then tighter else tighter ++ suffix
+      (g.prodsOf (g.nonterm (looser ++ suffix))).contains [g.nT + g.nonterm t]
+
+/-- no `_noin` production mentions the terminal `IN` -/
+def noinExcludesIn (g : GT) : Bool :=
+  let i := g.term "IN"
+  (g.prods.drop 1).all fun (lhs, rhs) =>
+    match g.nonterminals[lhs]? with
+    | some name => !(name.endsWith "_noin") || !(rhs.contains i)
+    | none => false
+
+/-- nonterminals reachable as FIRST symbol from `start` (no nullable symbol occurs first in this family) -/
+def firstClosure (g : GT) : Nat → List Nat → List Nat
+  | 0, acc => acc
+  | fuel + 1, acc =>
+    let next := acc.foldl (fun a n =>
+      (g.prodsOf n).foldl (fun a rhs => match rhs.head? with
+        | some x => if x ≥ g.nT && !(a.contains (x - g.nT)) then a ++ [x - g.nT] else a
+        | none => a) a) acc
+    if next.length == acc.length then acc else firstClosure g fuel next
+
+/-- terminals that can begin a string derived from `start` -/
+def firstTerminals (g : GT) (start : String) : List Nat :=
+  let ns := firstClosure g 64 [g.nonterm start]
+  (ns.flatMap fun n => (g.prodsOf n).filterMap fun rhs => match rhs.head? with
+    | some x => if x < g.nT then some x else none
+    | none => none).eraseDups
+
+/-- in the state after `IF ( expr ) statement` the action on ELSE is a shift (else binds to the nearest if) -/
+def elseBindsNearest (g : GT) (cert : List (List Nat)) : Bool :=
+  let pat := [g.term "IF", g.term "LPAREN", g.nT + g.nonterm "expr", g.term "RPAREN", g.nT + g.nonterm "statement"]
+  let e := g.term "ELSE"
+  let states := (List.range g.action.length).filter fun s =>
+    pat.isSuffixOf ((cert[s]?).getD [])
+  !states.isEmpty && states.all fun s =>
+    match g.action[s]? with
+    | some row => match lookupFlat row e with
+      | some code => (match decodeAct code with | .shift _ => true | _ => false)
+      | none => false
+    | none => false
+
+end CalmVerif.Model.GrammarFacts
